@@ -5,6 +5,7 @@ import (
 	"fmt"
 	"os"
 	"path/filepath"
+	"regexp"
 	"runtime"
 	"sort"
 	"strings"
@@ -123,6 +124,7 @@ func coverStage(name string, cats []*cat.Catalog, b Bounds, timeout time.Duratio
 	nw := workersN()
 	p := newPool(catsFile, nw, false)
 	seen := map[uint64]bool{}
+	shapes := map[string]int{}
 	var wg sync.WaitGroup
 	wg.Add(1)
 	go func() {
@@ -150,7 +152,12 @@ func coverStage(name string, cats []*cat.Catalog, b Bounds, timeout time.Duratio
 			}
 			for _, d := range res.Divs {
 				st.Divs[d.Kind]++
-				if st.Divs[d.Kind] <= maxExamples {
+				// examples are kept per shape of divergence (kind + detail with the names and
+				// numbers blanked), a few of each, so that one frequent shape cannot crowd out the
+				// others
+				sh := d.Kind + "|" + shapeOf(d.Detail)
+				shapes[sh]++
+				if shapes[sh] <= 3 && len(st.Examples) < 5*maxExamples {
 					st.Examples = append(st.Examples, divExample{Div: d, Line: lr.line, Ci: res.Ci})
 				}
 			}
@@ -184,6 +191,31 @@ func coverStage(name string, cats []*cat.Catalog, b Bounds, timeout time.Duratio
 		return st, terr
 	}
 	return st, nil
+}
+
+var (
+	reProv  = regexp.MustCompile(`[a-z]+[0-9]+#[0-9]+(\.[0-9]+\.[0-9]+)?`)
+	reCtx   = regexp.MustCompile(`^[a-z]+\([^)]*\): `)
+	reIdent = regexp.MustCompile(`\b[a-zA-Z]+[0-9]+\b`)
+	reRep   = regexp.MustCompile(`(v )+v`)
+)
+
+// shapeOf blanks the names, values and numbers of a divergence detail.
+func shapeOf(detail string) string {
+	if i := strings.IndexByte(detail, '\n'); i >= 0 {
+		detail = detail[:i]
+	}
+	s := reCtx.ReplaceAllString(detail, "")
+	if i := strings.Index(s, " ("); i >= 0 && strings.HasPrefix(s, "want ") {
+		s = s[:i]
+	}
+	s = reProv.ReplaceAllString(s, "v")
+	s = reRep.ReplaceAllString(s, "v")
+	s = reIdent.ReplaceAllString(s, "x")
+	if len(s) > 120 {
+		s = s[:120]
+	}
+	return s
 }
 
 func (st *CoverStats) summary() string {
